@@ -297,7 +297,8 @@ def gen_msg(rng, t, kind=None, udns=UDNS, small=False):
             if flaw != "notype":
                 headers.append([spell("NT"), typ])
             if flaw == "weird_nts":
-                headers.append(["NTS", "ssdp:weird"])
+                # not one of the three sub-types - also when it only differs from one in letter case
+                headers.append(["NTS", rng.choice(["ssdp:weird", "SSDP:ALIVE", "ssdp:Update", "SSDP:UPDATE", "Ssdp:ByeBye", "ssdp:alive "])])
             elif flaw != "nonts_adv":
                 headers.append(["NTS", rng.choice(["ssdp:alive", "ssdp:update", "ssdp:byebye"])])
         if flaw != "nousn":
